@@ -112,10 +112,13 @@ def h_multi(env):
         x = mpc.input(S(v) if src[0] != 'fxp' else S(v, integral=False), senders=0)
         y = mpc.convert(x, T)
         lst = mpc.convert([x, x], T)
+        # without PRSS the mask dealers are the t+1 parties starting at (program counter mod m): m further conversions visit every start
+        more = [mpc.convert(x, T) for _ in range(0 if prss else m)]
         o = await mpc.output(y, raw=True)
         o2 = await mpc.output(lst[1], raw=True)
+        om = [(await mpc.output(z, raw=True)).value for z in more]
         sh = await mpc.gather(y)
-        return o.value, o2.value, sh.value, T.field.modulus
+        return o.value, o2.value, sh.value, T.field.modulus, om
     sim.start(prog)
     res = l1.guarded_run(env, sim)
     if res is None:
@@ -123,9 +126,11 @@ def h_multi(env):
     R = type(sim.parties[0].mpc)
     env.encoded(R.convert, R._convert, R.output, R._randoms)
     from vf.algebra import interp
-    for pid, (o, o2, sh, p) in enumerate(res):
+    for pid, (o, o2, sh, p, om) in enumerate(res):
         _check(env, src, dst, a, kit.signed(env, o, p), f'convert@{pid}')
         _check(env, src, dst, a, kit.signed(env, o2, p), f'convert_list@{pid}')
+        for j, oj in enumerate(om):
+            _check(env, src, dst, a, kit.signed(env, oj, p), f'convert_again[{j}]@{pid}')
     p = res[0][3]
     xs = list(range(1, m + 1))
     ys = [r[2] for r in res]
@@ -165,6 +170,8 @@ def instances(tier):
             for src, dst in pairs:
                 if prss and (m, t) == (7, 3):
                     continue        # 35 PRF subsets per mask: several consistency goals came back unknown; (7,3) is explored without PRSS
+                if q and prss and (m, t) == (5, 2) and src == ('int', 16):
+                    continue        # ten PRF summands per mask: one goal needs 30-100 s of solver time (unknown on a loaded machine): thorough tier only
                 if dst[0] == 'fxp' and prss and (m, t) == (3, 1):
                     continue        # one consistency goal stays undecided for this configuration (decided for (5,2) and without PRSS)
                 out.append(Inst(f'm{m}t{t}prss{int(prss)}:{src}->{dst}', h_multi, dict(m=m, t=t, prss=prss, src=src, dst=dst), timeout=1200))
